@@ -264,6 +264,10 @@ class SeqV(V):
             return ("seqmap", self.seq.key(), ep._subst_key(self.elem.key(), {self.var: ep.sym("@v")}))
         if self.kind == "guarded":
             return ("guarded", tuple((c.key(), v) for c, v in self.conds), self.part.key())
+        if self.kind == "rows":
+            return ("rows", self.base.key(), self.per, self.flush)
+        if self.kind == "rowstrings":
+            return ("rowstrings", id(self.spec), repr(self.node))
         if self.kind == "nested":
             return ("nested", self.var, tuple(p.key() for p in self.parts))
         return ("concat",) + tuple(p.key() for p in self.parts)
@@ -277,6 +281,10 @@ class SeqV(V):
             return "[%r for %s over %r]" % (self.elem, self.var, self.seq)
         if self.kind == "guarded":
             return "guarded[%r if %r]" % (self.part, self.conds)
+        if self.kind == "rows":
+            return "rows[%r by %d]" % (self.base, self.per)
+        if self.kind == "rowstrings":
+            return "rowstrings[%r]" % (self.node,)
         return "%s%r" % (self.kind, self.parts,)
 
 
